@@ -212,14 +212,14 @@ def grep_forbidden():
     return hits
 
 
-def lean_build(timeout=3000):
-    """`lake build` of the library and every driver, under a file lock (checks may run concurrently).
-    returns (ok, log)"""
+def lean_build(targets=None, timeout=3000):
+    """`lake build` of the Lean modules and drivers a property needs (default: everything), under a file lock
+    (checks may run concurrently). returns (ok, log)"""
     lock = LEAN / ".build.lock"
     with open(lock, "w") as lf:
         fcntl.flock(lf, fcntl.LOCK_EX)
         try:
-            rc, so, se = sh(["lake", "build"], timeout, cwd=LEAN)
+            rc, so, se = sh(["lake", "build"] + list(targets or []), timeout, cwd=LEAN)
             return rc == 0, (so + se)[-6000:]
         finally:
             fcntl.flock(lf, fcntl.LOCK_UN)
